@@ -576,6 +576,10 @@ static Domain makeDomain(const std::string& prop, bool thorough)
     Domain d;
     d.thorough = thorough;
     d.types = thorough ? std::vector<uint8_t>{1, 3, 2} : std::vector<uint8_t>{1, 3};
+    // C07 / C08 quantify over ALL batches: message type 0 ("undefined", equal to the encoder's own initial value, so that no
+    // type change opens the first frame) is a batch member there; C01's domain names non-zero message types only
+    if (prop != "C01")
+        d.types.push_back(0);
     std::vector<size_t> maxes = {25, 26, 27, 31, 32, 33, 40};
     if (thorough)
     {
@@ -672,7 +676,7 @@ static void runTask(W& w, const std::string& prop, const Domain& d, const Task& 
             for (uint32_t l = 1; l <= 3 * (t.mx - 24) + 2; ++l)
                 L.push_back(l);
         std::vector<uint8_t> types = t.part == 'L' ? std::vector<uint8_t>{1, 3, 2} : d.types;
-        if (t.part == 'A' && t.n == 4)
+        if (t.part == 'A' && (t.n == 4 || (t.n == 3 && !d.thorough)))
             types = {1, 3};
         int choices = (int) (L.size() * types.size());
         if (t.first >= choices)
@@ -752,6 +756,8 @@ static void runTask(W& w, const std::string& prop, const Domain& d, const Task& 
             {
                 c.mn = 0; c.mx = 64;
                 c.b = {gen(1, 5, 0), gen(3, 6, 1), gen(0xFF, 7, 2), gen(2, 8, 3), gen(1, 45, 4), gen(3, 2, 5)};
+                if (prop != "C01")   // payload type byte 0 is outside C01's domain (not decodable), inside that of the frame-level properties
+                    c.b[1].pt = c.b[4].pt = 0;
             }
         };
         const uint64_t tss[] = {0, 0x0102030405060708ull, ~0ull};
@@ -796,6 +802,15 @@ static void runTask(W& w, const std::string& prop, const Domain& d, const Task& 
                 c.mn = ctx[k - 4][0]; c.mx = ctx[k - 4][1];
                 c.b = {gen(1, 1, 0), gen(3, l, 1), gen(3, 1, 2)};
                 exec();
+                // the same with NO type change in front of the large packet (it then meets a frame that already holds a message
+                // of its own type), at the lengths around 65535 - 16 where header + payload crosses 16 bits
+                for (uint32_t l2 : {l, (uint32_t) 65520, (uint32_t) 65519})
+                {
+                    c.b = {gen(1, 1, 0), gen(1, l2, 1), gen(1, 1, 2)};
+                    exec();
+                    if (l2 == l && l != 65535)
+                        break;
+                }
             }
         }
         else if (k >= 100)
@@ -872,17 +887,26 @@ static CaseSpec encodeArg(int k)
         case 0: c.mn = 0; c.mx = 1500; c.b = {gen(1, 6, 0)}; break;
         case 1: c.mn = 64; c.mx = 100; c.b = {gen(1, 5, 0), gen(1, 9, 1), gen(1, 30, 2)}; break;
         case 2: c.mn = 0; c.mx = 40; c.b = {gen(1, 40, 0)}; break;                      // multi-frame, batch ends in a segment
-        case 3: c.mn = 0; c.mx = 1500; c.b = {gen(1, 4, 0), gen(3, 5, 1), gen(1, 6, 2)}; break;   // type changes
+        case 3:   // type changes; the status packet that opens the second run has payload type BYTE 0 (raw type 0x0300: a message
+                  // type without a payload kind - the frame header must announce 3 all the same)
+            c.mn = 0; c.mx = 1500; c.b = {gen(1, 4, 0), gen(3, 5, 1), gen(1, 6, 2)};
+            c.b[1].pt = 0;
+            break;
         case 4: c.mn = 0; c.mx = 64; c.ver = 2; c.b = {gen(3, 11, 0)}; break;
         case 5: c.mn = 64; c.mx = 100; c.b = {gen(1, 150, 0), gen(1, 7, 1)}; break;
         case 6: c.mn = 0; c.mx = 40; c.b = {gen(1, 33, 0), gen(1, 3, 1), gen(1, 4, 2)}; break;   // starts with a segmenting packet
         case 7: c.mn = 0; c.mx = 100; c.b = {gen(3, 8, 0), gen(3, 9, 1)}; break;                  // status only
         case 8: c.mn = 0; c.mx = 100; c.b = {gen(1, 8, 0), gen(1, 9, 1)}; break;                  // data only
+        // long histories (not in the tree alphabet; C10's wrap round): one call that emits 65530 / 65533 / 32765 frames, so that the
+        // next batch straddles the 65535 -> 0 wrap (resp. the 0x7FFF -> 0x8000 sign boundary) of the 16-bit frame counter
+        case 0x20: c.mn = 0; c.mx = 25; c.b = {gen(1, 65530, 0)}; break;
+        case 0x21: c.mn = 0; c.mx = 25; c.b = {gen(1, 65533, 0)}; break;
+        case 0x22: c.mn = 0; c.mx = 25; c.b = {gen(1, 32765, 0)}; break;
         case 13: c.mn = 0; c.mx = 100; c.b = {gen(0, 5, 0), gen(0, 6, 1)}; break;   // message type 0 ("undefined"): no type change opens the first frame
         case 12: c.mn = 0; c.mx = 1500; c.b = {gen(1, 16, 0), gen(3, 0, 1), gen(1, 16, 2)}; break;   // a zero-length payload between two type changes (emits no message)
         case 10: c.mn = 0; c.mx = 1500; c.ver = 2; c.b = {gen(1, 6, 0)}; break;       // E0 with another version
         case 11: c.mn = 0; c.mx = 64; c.ver = 1; c.b = {gen(3, 11, 0)}; break;          // E4 with another version
-        default: c.mn = 30; c.mx = 48; c.b = {gen(0xFF, 25, 0), gen(1, 24, 1), gen(1, 2, 2)}; break;
+        default: c.mn = 30; c.mx = 48; c.b = {gen(0xFF, 25, 0), gen(1, 24, 1), gen(1, 2, 2)}; c.b[0].pt = 0; break;   // segmented vendor packet of raw type 0xFF00 first
     }
     c.junk = 1;   // the packets carry their own non-zero device / stream ids and counters: the encoder's configuration must win, also when it is 0
     return c;
@@ -1313,6 +1337,28 @@ int main(int argc, char** argv)
             });
             if (run.out_of_time())
                 break;
+        }
+        // histories long enough to bring the 16-bit frame counter to its wrap / sign boundary: every final then straddles it
+        {
+            static const char* kLong[] = {"E20", "E21", "E22", "E20,E2", "E21,E0", "E22,E1", "E20,E20", "E0,E21", "D1,E20", "E21,S7,E20"};
+            run.round("long histories (65530 / 65533 / 32765 frames emitted) x all finals", sizeof(kLong) / sizeof(kLong[0]), [&](W& w, uint64_t o) {
+                HistState s;
+                W silent;
+                silent.single = true;
+                for (auto& op : parseHist(kLong[o]))
+                    applyOp(silent, s, op, false);
+                for (int fin = 0; fin < 14; ++fin)
+                {
+                    auto desc = [&] { return fmt("h=%s;f=%d", kLong[o], fin); };
+                    if (!w.begin_case(desc))
+                        continue;
+                    HistState n = s;
+                    compareC10(w, n, fin);
+                    w.add(mc::C_TRANS, 2);
+                    w.add(mc::C_TRACES, 1);
+                }
+                w.add(mc::C_STATES, 1);
+            });
         }
         return run.finish();
     }
